@@ -5,6 +5,7 @@ import random
 import re
 
 from vlib import core
+from checks import httpresp
 
 
 def ps_cfg(path, nc, lock, maxops, schedlen, mode, opfilter="all", defer=True):
@@ -67,6 +68,12 @@ def run(ctx):
     vh = core.build_vh()
     vhr = core.build_vh(race=True)
     rnd = random.Random(ctx.seed)
+    if os.environ.get("VERIF_ONLY_RESP") == "1":     # debugging aid: only the HTTP response phase
+        httpresp.run_resp(ctx, "C13", vh, vhr)
+        ctx.nontrivial = ctx.traces
+        ctx.rule = "response phase only (VERIF_ONLY_RESP)"
+        ctx.sample({"only": "resp"})
+        return
     # (1) design level: with the lock, artifacts are atomic
     d = ctx.scratch("model")
     for nc, sl in ([(2, 8)] if quick else [(2, 10), (3, 9)]):
@@ -146,6 +153,9 @@ def run(ctx):
     sample = cases[:: max(1, len(cases) // (60 if quick else 400))]
     bad, _ = run_cases(ctx, vhr, sample, "directed-race", race_log=racelog)
     report(ctx, sample, bad)
+    # (4) the same property one layer up: the edit server's response write phase (specs/HttpResp.tla): gated
+    #     ResponseWriters, artifacts around the buffer sizes, schedules of the broken and the right design
+    rcases, rfree = httpresp.run_resp(ctx, "C13", vh, vhr, racelog=racelog)
     races = race_reports(racelog)
     for sig, txt in races:
         ctx.violation(sig, "Go race detector report inside polyform", {"family": "paramserver", "race": txt})
@@ -203,6 +213,12 @@ def report(ctx, cases, bad):
 
 def replay(ctx, path):
     obj = json.load(open(path))["case"]
+    if obj.get("family") == "httpresp":
+        httpresp.replay_case(ctx, "C13", obj["case"])
+        ctx.rule = "replay x10 (response phase)"
+        ctx.nontrivial = 2
+        ctx.sample({"replayed": path})
+        return
     vh = core.build_vh()
     if "case" not in obj:
         print("race reports are replayed by re-running the check")
